@@ -16,8 +16,13 @@ mod lowlevel;
 mod mat;
 use expr::Expr;
 
+/// bit pattern with every NaN mapped to one canonical pattern (sign/payload of NaN are not
+/// part of the compared behaviour)
+pub fn bits(v: f64) -> u64 {
+    if v.is_nan() { 0x7ff8000000000000 } else { v.to_bits() }
+}
 pub fn hx(v: f64) -> String {
-    format!("0x{:016x}", v.to_bits())
+    format!("0x{:016x}", bits(v))
 }
 pub fn unhx(s: &str) -> f64 {
     let s = s.trim_start_matches("0x");
@@ -54,7 +59,7 @@ impl H64 {
         self.0 = (self.0 ^ w).wrapping_mul(1099511628211);
     }
     pub fn f(&mut self, v: f64) {
-        self.word(v.to_bits())
+        self.word(bits(v))
     }
 }
 
